@@ -179,13 +179,19 @@ def handle (j : Json) : Except String Json := do
     let hw ← tensorOfJson (← j.getObjVal? "hw")
     let scale ← tensorOfJson (← j.getObjVal? "scale")
     let bits ← getInt j "bits"
-    let lim : Rat := pow2 (bits - 1) - 1
+    -- the DECLARED format: signed [-(2^(bits-1)-1), 2^(bits-1)-1], unsigned [0, 2^bits-1]
+    -- (`keep_negative` absent = signed, the default of quantized_bits)
+    let kn ← match j.getObjVal? "keep_negative" with
+      | .ok (.bool b) => pure b
+      | _ => pure true
     let z := List.zip stored (List.zip scale hw)
     let sameLen := stored.length == hw.length && stored.length == scale.length
     pure <| Json.mkObj [
       ("rebuild", Json.bool (sameLen && z.all fun (v, s, h) => s * h == v)),
       ("integer", Json.bool (hw.all fun h => h.den == 1)),
-      ("range", Json.bool (hw.all fun h => -lim ≤ h && h ≤ lim)),
+      ("range", Json.bool (hw.all fun h => codeLo bits kn ≤ h && h ≤ codeHi bits kn)),
+      ("in_code_range", Json.bool (hw.all (inCodeRange bits kn))),
+      ("nonneg", Json.bool (stored.all fun v => 0 ≤ v)),
       ("scale_po2", Json.bool (scale.all isPo2))]
   | "judge_bn" =>
     -- clause: bn_inv / fused_bias equal the BN algebra (float32-simulated) on the parameters the
